@@ -129,55 +129,7 @@ pub fn gen_graph(p: &GraphParams, rng: &mut Rng) -> GraphSpec {
     for i in 0..p.nlp {
         bases.push(format!("lp{}", i + 1));
     }
-    // 1. layout
-    let mut paths: Vec<String> = vec![];
-    let rootdir = if rng.chance(1, 4) { "r" } else { "" };
-    paths.push(if rootdir.is_empty() {
-        "w/root.scss".to_string()
-    } else {
-        format!("w/{rootdir}/root.scss")
-    });
-    for i in 1..p.nfiles {
-        let base = if p.nlp > 0 && rng.chance(1, 4) {
-            bases[1 + rng.usize(p.nlp)].clone()
-        } else {
-            "w".to_string()
-        };
-        let dir = *rng.pick(&DIRS);
-        let form = rng.below(8);
-        let fname = match form {
-            0..=3 => format!("f{i}.scss"),
-            4 | 5 => format!("_f{i}.scss"),
-            6 => format!("f{i}/index.scss"),
-            _ => format!("f{i}/_index.scss"),
-        };
-        paths.push(if dir.is_empty() {
-            format!("{base}/{fname}")
-        } else {
-            format!("{base}/{dir}/{fname}")
-        });
-    }
-    let mut extra_dirs = vec![];
-    for b in &bases {
-        if rng.chance(1, 2) {
-            extra_dirs.push(format!("{b}/x"));
-        }
-        if rng.chance(1, 4) {
-            extra_dirs.push(format!("{b}/d/x"));
-        }
-    }
-    let mut fs = SimFs::new();
-    for b in &bases {
-        fs.add_dir(b);
-    }
-    for d in &extra_dirs {
-        fs.add_dir(d);
-    }
-    for pth in &paths {
-        fs.add_file(pth, "");
-    }
-
-    // 2. edges
+    // 1. edges (indices only)
     let n = p.nfiles;
     let mut edges: Vec<Vec<(usize, LoadKind)>> = vec![vec![]; n];
     for j in 1..n {
@@ -209,6 +161,62 @@ pub fn gen_graph(p: &GraphParams, rng: &mut Rng) -> GraphSpec {
         let i = rng.usize(n);
         let j = rng.usize(i + 1);
         edges[i].push((j, *rng.pick(&p.kinds)));
+    }
+
+    // 2. layout; a leaf may be a plain css file
+    let mut paths: Vec<String> = vec![];
+    let rootdir = if rng.chance(1, 4) { "r" } else { "" };
+    paths.push(if rootdir.is_empty() {
+        "w/root.scss".to_string()
+    } else {
+        format!("w/{rootdir}/root.scss")
+    });
+    for i in 1..p.nfiles {
+        let base = if p.nlp > 0 && rng.chance(1, 4) {
+            bases[1 + rng.usize(p.nlp)].clone()
+        } else {
+            "w".to_string()
+        };
+        let dir = *rng.pick(&DIRS);
+        let form = rng.below(8);
+        let css_leaf = !p.c03 && edges[i].is_empty() && rng.chance(1, 3);
+        let fname = match form {
+            _ if css_leaf => {
+                if rng.chance(1, 3) {
+                    format!("_f{i}.css")
+                } else {
+                    format!("f{i}.css")
+                }
+            }
+            0..=3 => format!("f{i}.scss"),
+            4 | 5 => format!("_f{i}.scss"),
+            6 => format!("f{i}/index.scss"),
+            _ => format!("f{i}/_index.scss"),
+        };
+        paths.push(if dir.is_empty() {
+            format!("{base}/{fname}")
+        } else {
+            format!("{base}/{dir}/{fname}")
+        });
+    }
+    let mut extra_dirs = vec![];
+    for b in &bases {
+        if rng.chance(1, 2) {
+            extra_dirs.push(format!("{b}/x"));
+        }
+        if rng.chance(1, 4) {
+            extra_dirs.push(format!("{b}/d/x"));
+        }
+    }
+    let mut fs = SimFs::new();
+    for b in &bases {
+        fs.add_dir(b);
+    }
+    for d in &extra_dirs {
+        fs.add_dir(d);
+    }
+    for pth in &paths {
+        fs.add_file(pth, "");
     }
 
     // 3. statements
